@@ -42,4 +42,16 @@ let () =
       let tok = unhx f.(3) in
       let m = method_of tok in
       "P=" ^ hex_of_bytes (method_name m) ^ "\tK=" ^ (match m with MKnown i -> string_of_int (int_of_nat i) | MOther _ -> "-")
+    | "msg" ->
+      let a = Array.of_list (split_on '|' f.(3)) in
+      let line = unhx a.(0) in
+      let es = List.fold_left (fun acc e -> match String.index_opt e '=' with
+        | Some i -> h_insert (hname_of (unhx (String.sub e 0 i))) (unhx (String.sub e (i + 1) (String.length e - i - 1))) acc
+        | None -> h_insert (hname_of (unhx e)) [] acc) [] (nonempty (split_on ';' (if Array.length a > 1 then a.(1) else ""))) in
+      let body = if Array.length a > 2 then bytes_of_hex a.(2) else [] in
+      let t = encode_message line es body in
+      (match parse_message t with
+       | Some ((l, hs), b) ->
+         "T=" ^ hex_of_bytes t ^ "\tL=" ^ hx l ^ "\tH=" ^ String.concat ";" (List.map (fun (n, v) -> hx (hname_print n) ^ "=" ^ hx v) (h_iter hs)) ^ "\tB=" ^ hex_of_bytes b
+       | None -> "T=" ^ hex_of_bytes t ^ "\tUNPARSED")
     | _ -> "-")
